@@ -411,26 +411,48 @@ def generate(srcdir):
 
     # ---- 4. footer
     c = method_call(call_rvh, 'self', 'read_variant_headers')
-    if c is None or c.args:
-        bad(call_rvh, 'expected self.read_variant_headers(...) with keyword arguments only')
-    ip = ip_default
-    for kw in c.keywords:
-        if kw.arg == 'include_padding' and isinstance(kw.value, ast.Constant) and type(kw.value.value) is bool:
-            ip = kw.value.value
-        else:
-            bad(call_rvh, 'argument of read_variant_headers not recognised')
+    reload_ = False
+    if c is None:
+        # the D47 repair: self._load_variant_headers(<bool>) = drop arrays left in the other padding mode, then read_variant_headers
+        c = method_call(call_rvh, 'self', '_load_variant_headers')
+        if c is None or len(c.args) != 1 or c.keywords or not (isinstance(c.args[0], ast.Constant) and type(c.args[0].value) is bool):
+            bad(call_rvh, 'expected self.read_variant_headers(...) or self._load_variant_headers(<bool>)')
+        ip = c.args[0].value
+        reload_ = True
+    else:
+        if c.args:
+            bad(call_rvh, 'expected self.read_variant_headers(...) with keyword arguments only')
+        ip = ip_default
+        for kw in c.keywords:
+            if kw.arg == 'include_padding' and isinstance(kw.value, ast.Constant) and type(kw.value.value) is bool:
+                ip = kw.value.value
+            else:
+                bad(call_rvh, 'argument of read_variant_headers not recognised')
     D(f'(* {ast.unparse(call_rvh)}   (default include_padding={ip_default}) *)')
     D(f'Definition rb_footer_include_padding : bool := {"true" if ip else "false"}.\n')
-    if not (isinstance(ffoot, ast.For) and ast.unparse(ffoot.target) == '(k, header_array)' and
-            ast.unparse(ffoot.iter) == 'self.variant_headers.items()' and not ffoot.orelse and len(ffoot.body) == 1):
-        bad(ffoot, 'expected `for k, header_array in self.variant_headers.items():` with one statement')
+    D('(* true: loaded through _load_variant_headers, which reloads after a padding-mode switch by an earlier query *)')
+    D(f'Definition rb_footer_reload_on_mode_switch : bool := {"true" if reload_ else "false"}.\n')
+    if not (isinstance(ffoot, ast.For) and not ffoot.orelse and len(ffoot.body) == 1):
+        bad(ffoot, 'expected the footer loop with one statement')
+    head = (ast.unparse(ffoot.target), ast.unparse(ffoot.iter))
+    if head == ('(k, header_array)', 'self.variant_headers.items()'):
+        table_order = False         # insertion order of the memo: the table order only on an object that served no earlier query
+    elif head == ('k', 'self.stored_header_keys'):
+        table_order = True          # the D45 repair: header-word-table order whatever was loaded before
+    else:
+        bad(ffoot, 'expected `for k, header_array in self.variant_headers.items():` or `for k in self.stored_header_keys:`')
     inner = ffoot.body[0]
     stored_only = False
     if isinstance(inner, ast.If):
-        if ast.unparse(inner.test) != 'self.hw_info.table[k][1] == k' or inner.orelse or len(inner.body) != 1:
-            bad(inner, 'footer filter is not `if self.hw_info.table[k][1] == k:`')
+        if ast.unparse(inner.test) != 'self.hw_info.table[k][1] == k' or inner.orelse or len(inner.body) != (2 if table_order else 1):
+            bad(inner, 'footer filter is not `if self.hw_info.table[k][1] == k:` around the write')
         stored_only = True
-        inner = inner.body[0]
+        if table_order:
+            if ast.unparse(inner.body[0]) != 'header_array = self.variant_headers[k]':
+                bad(inner.body[0], 'expected `header_array = self.variant_headers[k]`')
+        inner = inner.body[-1]
+    elif table_order:
+        bad(inner, 'expected `if self.hw_info.table[k][1] == k:` in the footer loop over stored_header_keys')
     c = method_call(inner, 'outfile', 'write')
     if c is None or len(c.args) != 1 or c.keywords:
         bad(inner, 'expected outfile.write(<bytes>) in the footer loop')
@@ -453,6 +475,9 @@ def generate(srcdir):
         bad(inner, 'footer write is neither header_array.tobytes() nor header_array.tobytes() + bytes(<n>)')
     D(f'(* {" ".join(ast.unparse(ffoot).split())} *)')
     D(f'Definition rb_footer_stored_only : bool := {"true" if stored_only else "false"}.')
+    D('(* true: the loop runs over self.stored_header_keys (table order); false: over the memo self.variant_headers in its insertion order,\n'
+      '   which is the table order only when no tracefield query preceded the conversion on the same object *)')
+    D(f'Definition rb_footer_table_order : bool := {"true" if table_order else "false"}.')
     D('(* number of zero bytes appended to each written array (alen = len(header_array.tobytes())); bytes(n) raises for n < 0 *)')
     D(f'Definition rb_footer_pad (H : hdr) (alen : Z) : Z := {padterm}.')
 
